@@ -144,7 +144,8 @@ func c15Assign(nc, np int) {
 	}
 	local := udp.UDPAddr{Host: &net.UDPAddr{}}
 	remote := udp.UDPAddr{Host: &net.UDPAddr{}}
-	_, off, err := MeasureClockOffsetSCION(context.Background(), log, ntpcs, local, remote, ps)
+	ctx := context.Background()
+	_, off, err := MeasureClockOffsetSCION(ctx, log, ntpcs, local, remote, ps)
 
 	want := nc
 	if np < want {
@@ -194,7 +195,7 @@ func c15Assign(nc, np int) {
 			v.Assert(ntpcs[i].prev.reference == "" && filters[i].resets == 1, "C15.sticky.withdrawn-path-resets-client-and-filter")
 		}
 	}
-	if !v.Native() && nc == 1 && np >= 1 && err == nil && !c15.errs[0] {
+	if !v.Native() && nc == 1 && np >= 1 && err == nil && !c15.errs[0] && !v.CtxFired(ctx) {
 		v.Assert(off == c15.offs[0], "C15.result.single-participant-offset-is-its-measurement")
 	}
 	v.Reach("C15.assign")
